@@ -41,7 +41,10 @@ pub struct ConnInfo {
     /// some operation on this connection returned a transport/protocol error or it was faulted
     pub had_error: bool,
     /// write returned Ok(0) at least once (transport contract violation)
+    /// a write that cannot be resumed (QoS 0 PUBLISH, CONNECT) was answered Ok(0)
     pub write_zero: bool,
+    /// some write was answered Ok(0)
+    pub zero_seen: bool,
     /// the outbound stream of this connection could be parsed to its end: no framing error, no
     /// cancelled QoS 0 publish that left bytes behind, no Ok(0) write
     pub stream_ok: bool,
@@ -97,6 +100,7 @@ impl<'a> Trace<'a> {
                     qos0_cancel_at: None,
                     had_error: c.faulted,
                     write_zero: false,
+                    zero_seen: false,
                     stream_ok: true,
                 }
             })
@@ -105,7 +109,19 @@ impl<'a> Trace<'a> {
             match e {
                 Ev::ConnBegin { conn } => conns[*conn].ev_begin = i,
                 Ev::ConnEnd { conn } => conns[*conn].ev_end = i,
-                Ev::Io { conn, ans: IoAns::Zero, .. } => conns[*conn].write_zero = true,
+                Ev::Io { conn, ans: IoAns::Zero, .. } => {
+                    // a write answered Ok(0): queue-based packets keep their progress and are
+                    // carried on by the next call (the handle stays up); a QoS 0 PUBLISH or a
+                    // CONNECT written straight from scratch space is left cut short for good
+                    let op = log.ops.iter().find(|o| o.ev_call <= i && i <= o.ev_ret);
+                    let direct = op.is_none_or(|o| {
+                        o.kind == "connect" || o.kind == "publish0" || matches!(&log.steps[o.step], Step::Publish(p) if p.qos == 0 || log.cfg.downgrade) || matches!(&log.steps[o.step], Step::PollReply { .. })
+                    });
+                    conns[*conn].zero_seen = true;
+                    if direct {
+                        conns[*conn].write_zero = true;
+                    }
+                }
                 _ => {}
             }
         }
